@@ -23,6 +23,13 @@ def main(tier):
     UnitDatabase.PushSingleton(db)
     n = 0
     try:
+        import collections
+
+        class Samples(list):
+            """a list subclass of the application holding the values"""
+
+        NT = {n_: collections.namedtuple("Point%d" % n_, ["c%d" % i_ for i_ in range(n_)]) for n_ in range(1, 6)}
+
         def twounit_q():
             from collections import OrderedDict
             return ObtainQuantity(OrderedDict([("length", ["m", 1]), ("diameter", ["cm", 1])]))
@@ -41,10 +48,12 @@ def main(tier):
             return Scalar(v, "cm") * Scalar(1.0, "cm")
 
         def mkarray(qsel, vs, kind):
-            cont = {"list": list, "tuple": tuple, "ndarray": numpy.array, "intarray": lambda z: numpy.array(z)}[kind](vs)
+            cont = {"list": list, "tuple": tuple, "ndarray": numpy.array, "intarray": lambda z: numpy.array(z),
+                    "namedtuple": lambda z: NT[len(z)](*z), "list subclass": Samples}[kind](vs)
             if kind == "intarray":
                 cont = numpy.array([int(v) for v in vs])
-            one = {"list": [1.0] * len(vs), "tuple": (1.0,) * len(vs), "ndarray": numpy.ones(len(vs)), "intarray": numpy.ones(len(vs))}[kind]
+            one = {"list": [1.0] * len(vs), "tuple": (1.0,) * len(vs), "ndarray": numpy.ones(len(vs)), "intarray": numpy.ones(len(vs)),
+                   "namedtuple": (1.0,) * len(vs), "list subclass": [1.0] * len(vs)}[kind]
             if qsel == "captioned":
                 return Array(ObtainQuantity("<unknown>", None, "Gamma API"), cont)
             if qsel == "twounit":
@@ -74,8 +83,8 @@ def main(tier):
             if row["qsel"] == "captioned" and row["op"] not in ("k/x", "k//x") and res.GetQuantity().GetUnknownCaption() != "Gamma API":
                 diffs.append("the result does not keep x's quantity: caption %r instead of 'Gamma API'" % res.GetQuantity().GetUnknownCaption())
             vals = [res.GetAbstractValue()] if cls == "Scalar" else list(res.GetAbstractValue())
-            if len(vals) != len(want_vals) or any(abs(float(a) - b) > 1e-9 * max(1.0, abs(b)) for a, b in zip(vals, want_vals)):
-                diffs.append("values predicted %r observed %r" % (want_vals, [float(a) for a in vals]))
+            if len(vals) != len(want_vals) or any(not isinstance(a, (int, float, numpy.number)) or abs(float(a) - b) > 1e-9 * max(1.0, abs(b)) for a, b in zip(vals, want_vals)):
+                diffs.append("values predicted %r observed %r" % (want_vals, vals))
             return diffs
 
         # group rows by (qsel, op, k) so that arrays can be built from the row values
@@ -97,7 +106,7 @@ def main(tier):
                         rep.violation({"check": "Scalar with a plain number", "op": op, "k": kname, "kvalue": kval, "quantity": qsel, "x": v}, {"diff": d})
                 ivs = [v for v in vs if float(v) == int(v)]
                 iwant = [w for v, w in zip(vs, want) if float(v) == int(v)]
-                for kind in ("list", "tuple", "ndarray", "intarray"):
+                for kind in ("list", "tuple", "ndarray", "intarray", "namedtuple", "list subclass"):
                     xs_, ws_ = (ivs, iwant) if kind == "intarray" else (vs, want)
                     if len(xs_) < 2:
                         continue
@@ -108,7 +117,7 @@ def main(tier):
                         if d:
                             rep.violation({"check": "%s with a plain number" % cls, "op": op, "k": kname, "kvalue": kval, "quantity": qsel, "container": kind}, {"diff": d, "xs": vs})
             # a numpy array as the plain operand (Arrays only): element i of k is kval for every i
-            karrs = [numpy.array([kval] * len(vs)), numpy.ma.MaskedArray([kval] * len(vs))]     # (a masked array is an ndarray subclass with a high priority)
+            karrs = [numpy.array([kval] * len(vs)), numpy.ma.MaskedArray([kval] * len(vs)), numpy.array(float(kval))]      # ... and a zero-dimensional array     # (a masked array is an ndarray subclass with a high priority)
             if kval >= 0 and float(kval) == int(kval):
                 karrs += [numpy.array([int(kval)] * len(vs), dtype=numpy.uint8), numpy.array([int(kval)] * len(vs), dtype=numpy.int32)]
             for karr in karrs:
@@ -136,6 +145,15 @@ def main(tier):
                             o = P.outcome(lambda: FN[opn](kval, mkarray(qsel, [v, v], kind)))
                             events.append({"op": "Same", "call": "Array[%s] %s k=%r x=%r %s" % (kind, opn, kval, v, qsel), "a": repr([float(want)] * 2),
                                            "b": repr([float(z) for z in o[1].GetAbstractValue()]) if o[0] == "ok" and hasattr(o[1], "GetAbstractValue") else "raised/%s" % (o[2] if o[0] != "ok" else type(o[1]).__name__)})
+        # two-dimensional values (rows of points) with a row / a column of plain factors: numpy's own broadcasting on the raw numbers, the unit kept
+        raw2 = numpy.array([[1.0, 2.0, 3.0], [4.0, 5.0, 6.0]])
+        for opn in PY:
+            for kname, karr in (("row of 3", numpy.array([1.0, 10.0, 100.0])), ("column of 2", numpy.array([[2.0], [4.0]])), ("zero-dimensional", numpy.array(3.0))):
+                want = PY[opn](karr, raw2)
+                o = P.outcome(lambda: FN[opn](karr, Array(raw2.copy(), "m")))
+                unit_want = "1/m" if opn in ("k/x", "k//x") else "m"
+                events.append({"op": "Same", "call": "Array[2 x 3 ndarray] %s %s" % (opn, kname), "a": repr([want.tolist(), unit_want, "Array"]),
+                               "b": repr([numpy.asarray(o[1].GetAbstractValue()).tolist(), o[1].GetUnit(), type(o[1]).__name__]) if o[0] == "ok" and hasattr(o[1], "GetAbstractValue") else "raised/%s" % (o[2] if o[0] != "ok" else type(o[1]).__name__)})
     finally:
         UnitDatabase.PopSingleton()
     common.judge_trace(rep, bd, events, "operands that are not exact in binary: the result is Python's own float operation on the raw numbers", key_of=lambda e: {"check": "float operator", "call": e["call"]})
